@@ -33,7 +33,44 @@ def run_jobs(ctx, binary, jobs, clause_map, nontrivial):
                               o["_run"]["env"]), rep, sig={"scenario": sc["id"], "driver": sc["driver"], "clause": c})
             else:
                 ctx.other.append({"clause": c, "id": o["id"]})
+    fidelity_pass(ctx, obs)
     return obs, verdicts
+
+def fidelity_pass(ctx, obs):
+    """Layer-A trace validation of the runs that were traced (life=True): advisory, reported as model drift."""
+    import copy
+    from .common import log
+    traced = [o for o in obs if o.get("_life") is not None]
+    if not traced:
+        return
+    acc, rej, r = dataplane.fidelity(traced)
+    ctx.states += r.distinct; ctx.transitions += r.generated
+    ctx.tlc_jobs.append({"job": "TraceA_Data: strace logs replayed as XcpData actions", "runs": len(traced), "accepted": len(acc), "rejected": len(rej),
+                         "wall_s": round(r.wall, 2)})
+    ctx.notes["model_fidelity"] = {"traces_replayed_against_XcpData": len(traced), "accepted": len(acc), "rejected": sorted(rej)[:10]}
+    for i in sorted(rej)[:10]:
+        ctx.drift.append({"id": i, "what": "XcpData cannot explain the system-call trace of this run (Layer-A drift)"})
+    if rej:
+        log("MODEL-DRIFT: %d of %d traced runs are not behaviours of XcpData" % (len(rej), len(traced)))
+    # the binding is demonstrated, not assumed: a corrupted copy of an accepted trace must be rejected
+    good = [o for o in traced if o["id"] in acc and len([e for e in o["_life"] if e["e"] == "copy"]) >= 2]
+    if good:
+        bad = []
+        for k, o in enumerate(good[:3]):
+            b = {"id": "corrupt-%d" % k, "_lifesc": o["_lifesc"], "_life": copy.deepcopy(o["_life"])}
+            cps = [e for e in b["_life"] if e["e"] == "copy"]
+            if k == 0:
+                cps[-1]["off"] = cps[-1]["off"] + 1 if cps[-1]["off"] >= 0 else -1; cps[-1]["ret"] = max(0, cps[-1]["ret"] - 1) if cps[-1]["off"] < 0 else cps[-1]["ret"]
+            elif k == 1:
+                b["_life"] = [e for e in b["_life"] if e["e"] != "alloc"]
+            else:
+                b["_life"].remove(cps[0])
+            bad.append(b)
+        a2, r2, rr = dataplane.fidelity(bad)
+        ctx.states += rr.distinct; ctx.transitions += rr.generated
+        ctx.notes["model_fidelity"]["corrupted_traces_rejected"] = "%d of %d" % (len(r2), len(bad))
+        if a2:
+            raise ToolError("binding self-test failed: corrupted traces accepted by TraceA_Data: %s" % sorted(a2))
 
 def replay(ctx, clause_map, path):
     rep = json.load(open(path))["replay"]
